@@ -32,16 +32,26 @@ THEOREMS = [
     'CC.C18_real_counterexample', 'CC.C18_rounds_up_to_one_text', 'CC.C18_complex_suppression_counterexample',
     'CC.C18_zero_never_infinity', 'CC.C18_exponent_decade_partial', 'CC.C18_accuracy_positional',
     'CC.C18_exponent_decade_small', 'CC.C18_exponent_decade_domain', 'CC.C18_accuracy_domain',
-    'CC.C18_mantissa_range_domain', 'CC.C18_saturate_domain', 'CC.C18_tables_ends', 'CC.C18_sine_shift', 'CC.C18_saturation_independent_of_precision', 'CC.C18_render', 'CC.C18_real_domain', 'CC.C18_complex_parts',
+    'CC.C18_mantissa_range_domain', 'CC.C18_saturate_domain', 'CC.C18_tables_ends', 'CC.C18_sine_shift', 'CC.C18_saturation_independent_of_precision', 'CC.C18_render', 'CC.C18_real_domain', 'CC.C18_complex_shown_parts',
 ]
 OPEN_STATEMENTS = [
     'CC.C18_exponent_decade_statement and CC.C18_real_partial_statement for |v| >= 1e16 only (outside the property domain '
-    '1e-15..1e15; proved below 1e16 as C18_exponent_decade_domain / C18_real_domain)',
+    '1e-15..1e15; proved below 1e16 as C18_exponent_decade_domain / C18_real_domain).  Consequence: under |v| < 1e16 the first '
+    'conjunct of C18_saturate_domain (Beyond -> is_inf) is vacuous for every configuration without prefixes (max_exp = 16, '
+    'Beyond needs |v| >= 1e19); it has content for the prefix tables only',
     'CC.C18_real_statement is FALSE for the current code: CC.C18_real_counterexample (open finding 1, not repaired: the '
     "repository's own tests encode the behaviour)",
-    'a verified *reader* for the composite texts (parseCartesian / parsePolar / sinusoid): C18_complex_parts proves the '
-    'Cartesian text is sign ++ T_re ++ sign ++ j ++ T_im with each T read back accurately by parseBack, C18_complex_polar the '
-    'polar structure; that parseCartesian splits the text at these places is covered by the correspondence and the oracle',
+    'Cartesian complex text: WHICH parts appear.  C18_complex_shown_parts states each branch with its is_zero condition and '
+    'that the part texts read back accurately; that a part is left out only when it should be is FALSE at full strength (open '
+    'finding 2, C18_complex_suppression_counterexample: |im| = 20|re| dropped).  Values with a zero part (purely real / purely '
+    'imaginary) are outside the hypotheses (InDomain)',
+    'a verified *reader* for the composite texts (parseCartesian / parsePolar / sinusoid): that parseCartesian splits the text at '
+    'the places C18_complex_shown_parts names is covered by the correspondence and the oracle only',
+    'polar text: C18_complex_polar proves the structure (magnitude text, angle in fixed notation, cut-offs); the accuracy of the '
+    'printed angle at the level of the characters (fixedFmt / parseFixed) is unproved — C18_fixed_accuracy is only a fact about '
+    'the rounding rhe; oracle only',
+    'pins (restate generated definitions so that an edit breaks a theorem, no further content): C18_is_inf_iff, C18_is_zero_iff, '
+    'C18_no_prefix, C18_defaults, C18_display_args, C18_display_ranges',
 ]
 ASSUMPTIONS = [
     'the model formats the exact rational value of the binary64 input; float arithmetic inside Utils.py '
